@@ -1,0 +1,114 @@
+//go:build verif
+
+// Package verifhook provides observation and delay points used by the external
+// verification harness. This file is only compiled with `-tags verif`.
+//
+// Event appends one JSON line per event to the file named by $VERIF_EVENT_LOG
+// (nothing is recorded when the variable is unset). Point additionally sleeps
+// when $VERIF_DELAYS names the k-th hit of the site, e.g.
+// VERIF_DELAYS="regen.validated#2=1500,chdir.inside#3=50" (milliseconds), and
+// evaluates a per-ordinal gofail failpoint when the package has been processed
+// by `gofail enable` on a scratch copy.
+package verifhook
+
+import (
+	"bytes"
+	"encoding/json"
+	"os"
+	"runtime"
+	"strconv"
+	"strings"
+	"sync"
+	"time"
+)
+
+var (
+	mu      sync.Mutex
+	logFile *os.File
+	opened  bool
+	start   = time.Now()
+	hits    = map[string]int{}
+	delays  map[string]time.Duration
+)
+
+func goid() int64 {
+	var buf [64]byte
+	n := runtime.Stack(buf[:], false)
+	// "goroutine 123 [running]:"
+	f := bytes.Fields(buf[:n])
+	if len(f) < 2 {
+		return -1
+	}
+	id, err := strconv.ParseInt(string(f[1]), 10, 64)
+	if err != nil {
+		return -1
+	}
+	return id
+}
+
+func openLocked() {
+	if opened {
+		return
+	}
+	opened = true
+	if p := os.Getenv("VERIF_EVENT_LOG"); p != "" {
+		f, err := os.OpenFile(p, os.O_APPEND|os.O_CREATE|os.O_WRONLY, 0644)
+		if err == nil {
+			logFile = f
+		}
+	}
+	delays = map[string]time.Duration{}
+	for _, item := range strings.Split(os.Getenv("VERIF_DELAYS"), ",") {
+		kv := strings.SplitN(strings.TrimSpace(item), "=", 2)
+		if len(kv) != 2 {
+			continue
+		}
+		ms, err := strconv.Atoi(kv[1])
+		if err != nil {
+			continue
+		}
+		delays[kv[0]] = time.Duration(ms) * time.Millisecond
+	}
+}
+
+// Event records a named event with key/value attributes.
+func Event(name string, kv ...string) {
+	g := goid()
+	mu.Lock()
+	defer mu.Unlock()
+	openLocked()
+	if logFile == nil {
+		return
+	}
+	rec := map[string]any{"t": time.Since(start).Nanoseconds(), "g": g, "pid": os.Getpid(), "ev": name}
+	attrs := map[string]string{}
+	for i := 0; i+1 < len(kv); i += 2 {
+		attrs[kv[i]] = kv[i+1]
+	}
+	if len(attrs) > 0 {
+		rec["kv"] = attrs
+	}
+	b, err := json.Marshal(rec)
+	if err != nil {
+		return
+	}
+	logFile.Write(append(b, '\n'))
+}
+
+// Point records an event carrying the ordinal of this hit of the site and then
+// applies the delay configured for that ordinal, outside of any lock.
+func Point(name string) {
+	mu.Lock()
+	openLocked()
+	hits[name]++
+	k := hits[name]
+	d := delays[name+"#"+strconv.Itoa(k)]
+	mu.Unlock()
+
+	Event(name, "hit", strconv.Itoa(k))
+	if d > 0 {
+		time.Sleep(d)
+		Event(name+".resumed", "hit", strconv.Itoa(k))
+	}
+	failpoint(name, k)
+}
